@@ -27,8 +27,26 @@ pub struct IggyTimestamp(SystemTime);
 
 pub const UTC_TIME_FORMAT: &str = "%Y-%m-%d %H:%M:%S";
 
+/// Verification hook (feature `verif_hooks`, off by default): lets the verification harness pin the
+/// value returned by `IggyTimestamp::now()`; 0 (the default) means "use the system clock".
+#[cfg(feature = "verif_hooks")]
+pub mod verif_clock {
+    pub static FIXED_MICROS: std::sync::atomic::AtomicU64 = std::sync::atomic::AtomicU64::new(0);
+
+    pub fn set(micros: u64) {
+        FIXED_MICROS.store(micros, std::sync::atomic::Ordering::SeqCst);
+    }
+}
+
 impl IggyTimestamp {
     pub fn now() -> Self {
+        #[cfg(feature = "verif_hooks")]
+        {
+            let fixed = verif_clock::FIXED_MICROS.load(std::sync::atomic::Ordering::SeqCst);
+            if fixed != 0 {
+                return IggyTimestamp::from(fixed);
+            }
+        }
         IggyTimestamp::default()
     }
 
